@@ -5,7 +5,8 @@ from ..run import Prop
 from ..common import PropertyViolation
 from .. import detsched
 
-KINDS = ["fabric", "run_event", "writer", "active_object", "signal", "return_status"]
+KINDS = ["fabric", "run_event", "writer", "active_object", "signal", "return_status", "slow_custom",
+         "slow_custom"]
 
 
 @st.composite
@@ -13,7 +14,8 @@ def first_requests(draw):
   n = draw(st.integers(2, 4))
   reqs = [draw(st.lists(st.sampled_from(KINDS), min_size=1, max_size=3)) for _ in range(n)]
   fine = st.lists(st.tuples(st.integers(0, 5), st.integers(1, 6)), max_size=80)
-  return {"requests": reqs, "schedule": [list(x) for x in draw(fine)]}
+  return {"requests": reqs, "schedule": [list(x) for x in draw(fine)],
+          "slow": draw(st.sampled_from([0.0, 0.5, 3.0, 30.0]))}
 
 
 class C30(Prop):
@@ -26,7 +28,8 @@ class C30(Prop):
           "case starts from fresh singletons (no instance yet, as in a new process) and 2-4 threads "
           "each make 1-3 first requests from ActiveFabric(), the fabric run event "
           "(FiberThreadEvent()), the live-output writer (InstrumentionWriter()), constructing an "
-          "ActiveObject (which requests all three), Signal() and ReturnStatus(). Oracle: every "
+          "ActiveObject (which requests all three), Signal(), ReturnStatus(), and a harness class whose construction takes 0-30 s "
+          "of virtual time behind the same SingletonDecorator. Oracle: every "
           "request for one singleton, from any thread and afterwards from the body, yields the "
           "same object; Signal()/ReturnStatus() yield the import-time registry objects; an "
           "ActiveObject's fabric/writer attributes are those same objects. Non-trivial: >=2 threads "
@@ -43,7 +46,17 @@ class C30(Prop):
     detsched.reset(ao)
     import miros.event as ev
     files = detsched.miros_files()
-    seen = dict((k, []) for k in ("fabric", "run_event", "writer", "signal", "return_status"))
+    seen = dict((k, []) for k in ("fabric", "run_event", "writer", "signal", "return_status", "slow_custom"))
+    from miros.singleton import SingletonDecorator
+    built = []
+
+    class VfSlow:
+      """A class whose construction takes (virtual) time, behind the library's singleton wrapper."""
+      def __init__(self):
+        built.append(1)
+        ao.time.sleep(case.get("slow", 3.0))
+    slow_singleton = SingletonDecorator(VfSlow)
+    detsched.virtualize_locks(slow_singleton)
     info = {"inside": 0}
 
     def body(s):
@@ -59,6 +72,8 @@ class C30(Prop):
             seen["signal"].append(ev.Signal())
           elif r == "return_status":
             seen["return_status"].append(ev.ReturnStatus())
+          elif r == "slow_custom":
+            seen["slow_custom"].append(slow_singleton())
           else:
             c = ao.ActiveObject(name="x")
             seen["fabric"].append(c.fabric)
